@@ -15,15 +15,19 @@ and likewise for difference / intersection (members filtered, order of u).  The 
 ulist (`_ulist.py`)      __add__, __or__ (checked to be the same function object in the class body), __sub__, __and__, copy are
                          executed from the real AST for a list argument and for a single non-list element; the result class is the
                          symbolic class tag type(self) (every subclass at once).
-                         ASSUMED (bounded stand-in only): the constructor contract - ulist(xs) = DEDUP(xs) (no duplicates, same element
-                         set, first-occurrence order; the set / index / sorted pipeline of ulist.__init__), ulist(xs, unique = True)
-                         holds the items of xs.  The precondition of the trusted fast path (xs duplicate free) is an obligation at
-                         every call site that uses it (copy, `&` with one element, dictattr.keys).
+                         The constructor contract the operators rely on is proved from the real ulist.__init__ (section ulist.__init__.*):
+                         ulist(xs) = DEDUP(xs) (no duplicates, same element set, first-occurrence order, at most len(xs) items - the set / index /
+                         sorted pipeline under the axioms of those builtins, which are validated against CPython on every run), ulist(xs,
+                         unique = True) holds the items of xs, ulist() is empty.  The precondition of the fast path (xs duplicate free) is an
+                         obligation at every call site that uses it (copy, `&` with one element, dictattr.keys).
 dictattr (`_dictattr.py`) __sub__ (single key, list of keys: the `for` loop with a pointwise invariant, the recursive call with
                          copy = False inlined), __delitem__ (through `del res[key]`), __and__ (with the real as_list / keys),
                          __add__, __getitem__ (key, tuple of keys, list of keys), __getattr__, __setattr__, __delattr__ (the two in-place
-                         operations, run on an owned copy), keys, copy, relabel (method body; the module-level helper relabel() that builds
-                         the renaming dict is taken as an arbitrary mapping M - its string building stays bounded).
+                         operations, run on an owned copy), keys, copy, relabel: the method body with the module-level helper relabel() executed
+                         at its call site, once per shape of *args (none, suffix '_x', prefix 'x_', other string, callable, dict, two names):
+                         same class, new object, every key renamed to the label the call asks for (explicit relabels win), values untouched and
+                         original key order when no two keys collide; the helper on its own in relabel.* (string concatenation and the
+                         callable stay uninterpreted; new labels are strings by precondition).
                          The law (d - k).keys() == d.keys() - k is checked with both sides executed: the real dictattr.keys on the
                          result and on the receiver and the real ulist.__sub__ on the latter (same members, same relative order).  Frame: every mutation site executed (del, update, store) produces an obligation
                          "the target was created in this activation (copy / constructor)" - the ownership flag travels with the
@@ -48,6 +52,7 @@ from pyvc.th_maps import (Maps, Val, Lst, Dct, Cls, LEN, AT, MEM, FST, NODUP, DO
 from pyvc.sv import SV, I, B, S, T, NONE, fresh_int, fresh_name
 
 PROP = 'C16'
+RELABEL_FN = '_dictattr.relabel'
 REPLAY_MODULE = 'rac.C16_ded'
 
 
@@ -64,6 +69,7 @@ def machinery(ctx):
         inline.update(class_methods(mod, c))
     for mod, f in ((mt, 'is_list'), (mt, 'is_str'), (ml, 'as_list'), (ml, 'is_rng')):
         inline[f] = (mod, mod.func(f))
+    inline[RELABEL_FN] = (md, md.func('relabel'))        # the module-level helper (dictattr.relabel is the method)
     return dict(mu=mu, mt=mt, ml=ml, md=md, mD=mD, classes=classes, inline=inline)
 
 
@@ -71,7 +77,7 @@ def record_inlined(ctx, ex):
     """every repo function whose statements were executed (directly or inlined at a call site) is listed in the evidence"""
     for key, (mod, fdef) in ex.inline.items():
         if any(isinstance(n, ast.stmt) and id(n) in ex.stmts_executed for n in ast.walk(fdef) if n is not fdef):
-            ctx.record_function(mod, key, fdef, ex.stmts_executed)
+            ctx.record_function(mod, 'relabel' if key == RELABEL_FN else key, fdef, ex.stmts_executed)
 
 
 def finish(ctx, ex, th, E, J=()):
@@ -160,6 +166,90 @@ def ulist_section(ctx, M):
     ctx.post('ulist.or_is_add', [], BoolVal(bool(alias) and isinstance(alias[-1].value, ast.Name) and alias[-1].value.id == '__add__'), kind='post')
     ctx.trust('elements are compared with an == that is an equivalence consistent with hash (no NaN elements)')
     ctx.trust('a duplicate-free list is determined by its member set and the relative order of its members (induction, not a solver step)')
+
+
+# =============================================================================================== ulist.__init__ (the constructor contract the operators use)
+def init_section(ctx, M):
+    """ulist.__init__(self, *args, unique = False), executed from the real AST on the object under construction (an empty list of class type(self),
+    created by list.__new__ for this call) and one symbolic list argument xs (or none):
+
+      unique = False   self ends up holding DEDUP(xs): no duplicates, exactly the members of xs, first occurrences in the order of xs, at most len(xs)
+                       items - through whatever pipeline the body uses (today: set -> (index, item) pairs -> sorted -> second components), given the
+                       axioms of those builtins over the list theory; `xs.index(u)` never raises because u comes from set(xs); sorted() never compares
+                       two items because the first components of different items differ (an obligation at the call).
+      unique = True    self holds the items of xs, position by position (so it is duplicate free iff xs is - the call-site precondition).
+      no argument      self is empty.
+    These are the three contracts `Maps.construct` hands to every caller ulist(...) / type(self)(...)."""
+    mu = M['mu']
+    key = 'ulist.__init__'
+    if key not in M['inline']:
+        raise SelectorError('ulist.__init__ not found')
+    fdef = M['inline'][key][1]
+    xs = Const('xs', Lst)
+    a, b = Consts('a b', Val)
+    J0 = Int('J0')
+    CLS = Const('type_self', Cls)
+    for variant in ('dedup', 'dedup.no_argument', 'unique', 'unique.no_argument'):
+        th = Maps(M['classes'])
+        ex = Exec(mu, [th], inline=M['inline'], name='ulist.__init__.' + variant)
+        self_ = SV('plist', None, pl=PList.literal([]), cls='ulist', tag=CLS, own=True)
+        src = th.sym_list('xs', cls='list')
+        XS = src.pl
+        has_arg = 'no_argument' not in variant
+        outs = ex.run_function(State(), key, [self_] + ([src] if has_arg else []), {'unique': B(variant.startswith('unique'))})
+        E, J = [a, b], [J0]
+        inst = finish(ctx, ex, th, E, J)
+        ctx.record_function(mu, key, fdef, ex.stmts_executed)
+        wit = dict(len_xs=LEN(xs), a=a, b=b, J0=J0)
+        cells = []
+        for i in range(3):
+            wit['xs%d' % i] = XS.at(i)
+            cells.append(XS.at(i))
+        ctx.default_meta = dict(search_hints=[LEN(xs) <= 3] + th.inst(E + cells, [0, 1, 2]))
+        kw = dict(witness=wit, replay=rp('ulist_init', variant))
+        pre = 'ulist.__init__.%s.' % variant
+        nret = 0
+        for out in outs:
+            hy = ex.facts + out.st.pc + inst
+            if out.kind != 'return':
+                ctx.post(pre + 'never_raises.%s' % out.val, hy, BoolVal(False), kind='safety', **kw)
+                continue
+            nret += 1
+            cur = out.st.env.get('self')
+            if cur is None or cur.kind != 'plist':
+                raise OutOfSubset('ulist.__init__: receiver lost')
+            R = cur.pl
+            ctx.post(pre + 'returns_None_and_keeps_the_class', hy, And(BoolVal(out.val.kind == 'none' and cur.cls == 'ulist'), cur.tag == CLS), **kw)
+            if not has_arg:
+                ctx.post(pre + 'empty', hy, R.len == 0, **kw)
+            elif variant == 'dedup':
+                ctx.post(pre + 'no_duplicates', hy, R.nodup if R.nodup is not None else BoolVal(False), **kw)
+                ctx.post(pre + 'same_members', hy, R.mem(a) == XS.mem(a), **kw)
+                ctx.post(pre + 'first_occurrence_order', hy + [R.mem(a), R.mem(b)], (R.fst(a) < R.fst(b)) == (XS.fst(a) < XS.fst(b)), **kw)
+                ctx.post(pre + 'at_most_len_xs_items', hy, And(R.len <= XS.len, R.len >= 0), **kw)
+            else:
+                ctx.post(pre + 'same_length', hy, R.len == XS.len, **kw)
+                ctx.post(pre + 'same_item_at_every_position', hy + [0 <= J0, J0 < XS.len],
+                         (R.at(J0) == XS.at(J0)) if R.at is not None else BoolVal(False), **kw)
+                ctx.post(pre + 'same_element_view', hy, And(R.mem(a) == XS.mem(a), Implies(XS.mem(a), R.fst(a) == XS.fst(a))), **kw)
+                ctx.post(pre + 'duplicate_free_iff_xs_is', hy, (R.nodup == NODUP(xs)) if R.nodup is not None else BoolVal(False), **kw)
+            arg_now = out.st.env.get(fdef.args.vararg.arg) if fdef.args.vararg is not None else None
+            kept = (not has_arg) or (arg_now is not None and arg_now.kind == 'tuple' and len(arg_now.items) == 1 and arg_now.items[0] is src)
+            ctx.post(pre + 'argument_unchanged', hy, BoolVal(bool(kept)), kind='frame', **kw)
+        if not nret:
+            raise OutOfSubset('ulist.__init__ has no returning path')
+        muts = list(th.mutations)
+        ctx.post(pre + 'frame.writes_only_the_object_under_construction', [], BoolVal(len(muts) == 1 and all(own for _, own in muts)), kind='frame')
+        if has_arg:
+            ctx.cover(pre + 'precondition', [LEN(xs) >= 3, XS.mem(a), XS.mem(b), a != b, XS.at(0) == XS.at(2)] + th.inst(E + [XS.at(0), XS.at(2)], [0, 2]))
+    ctx.default_meta = {}
+    cdef = mu.func('ulist')
+    ctx.post('ulist.__init__.construction_is_list_new_then_this_init', [],
+             BoolVal(not any(isinstance(n, ast.FunctionDef) and n.name in ('__new__', '__init_subclass__', '__class_getitem__') for n in cdef.body)
+                     and [ast.unparse(bs) for bs in cdef.bases] == ['list'] and not cdef.keywords), kind='post')
+    ctx.trust('axiom:C(*args, **kw) for a subclass C of list that defines no __new__ creates an empty list of class C, runs C.__init__(it, *args, **kw) and '
+              'returns it (object construction; ulist.__init__.* verify what __init__ leaves in it)')
+
 
 
 # =============================================================================================== dictattr
@@ -537,24 +627,34 @@ def dictattr_section(ctx, M, cls):
         ctx.cover(pre + 'precondition', [MEM(ks, K0), D.dom(K0), MEM(ks, K1), K0 != K1] + th.inst(E))
     ctx.guarded('%s.getitem.list' % cls, getitem_list)
 
-    # ------------------------------------------------------------------ relabel
-    def relabel_():
-        th, ex, self_ = setup('relabel')
+    # ------------------------------------------------------------------ relabel (the module-level helper relabel() is executed at its call site)
+    def relabel_(variant):
+        th, ex, self_ = setup('relabel.' + variant)
+        th.contracts['__call__'] = call1_contract(th)
         D = self_.pd
         key = resolve(th, 'relabel')
         E = [K0, K1]
-        kwargs = {'**': th.sym_dict('relabels', cls='dict', kty='str')}
+        args, pre_, base, extra = relabel_setup(th, variant)
+        rel = th.sym_dict('relabels', cls='dict', kty='str', own=True)
+        RL = rel.pd
         fdef = M['inline'][key][1]
-        st = State()
-        outs = ex.run_function(st, key, [self_], kwargs)
-        Mmap = th.relabel_map
+        st = State(); st.pc += list(pre_)
+        outs = ex.run_function(st, key, [self_] + args, {'**': rel})
+        Mmap, KS = getattr(th, 'relabel_map', None), getattr(th, 'relabel_keys', None)
+        if Mmap is None or KS is None:
+            raise OutOfSubset('dictattr.relabel does not call relabel(list of keys, ...)')
         m = lambda x: If(Mmap.dom(x), Mmap.get(x), x)
-        inst = finish(ctx, ex, th, E + [m(K0), m(K1)])
+        want = lambda x: If(RL.dom(x), RL.get(x), If(base['dom'](KS, x), base['get'](KS, x), x)) if base['get'] is not None else If(RL.dom(x), RL.get(x), x)
+        inst = finish(ctx, ex, th, E + [m(K0), m(K1)] + [v for v in extra.values() if z3.is_expr(v)], [0, 1])
         ctx.record_function(md, key, fdef, ex.stmts_executed)
-        kw = dict(witness=wit(D, K0_renamed=Mmap.dom(K0)), replay=rp('dictattr', cls, 'relabel'))
-        pre = '%s.relabel.' % cls
+        ctx.record_function(md, 'relabel', M['inline'][RELABEL_FN][1], ex.stmts_executed, how='inlined into dictattr.relabel')
+        w = wit(D, K0_renamed=Mmap.dom(K0), K0_relabelled=RL.dom(K0), K1_relabelled=RL.dom(K1))
+        if 'amap' in extra:
+            w.update(K0_in_arg=extra['amap'].dom(K0), K1_in_arg=extra['amap'].dom(K1))
+        kw = dict(witness=w, replay=rp('dictattr', cls, 'relabel.' + variant))
+        pre = '%s.relabel.%s.' % (cls, variant)
         q = Const('q', Val)
-        inj = ForAll([q], Implies(And(D.dom(q), q != K0), m(q) != m(K0)))
+        inj = lambda x: ForAll([q], Implies(And(D.dom(q), q != x), m(q) != m(x)))
         nret = 0
         for out in outs:
             hy = ex.facts + out.st.pc + inst
@@ -565,15 +665,24 @@ def dictattr_section(ctx, M, cls):
             r = out.val
             R = r.pd
             ctx.post(pre + 'result_is_type_self', hy, same_class(r), **kw)
+            ctx.post(pre + 'result_is_a_new_object', hy, BoolVal(bool(r.f.get('own')) and r.pd is not D), **kw)
+            ctx.post(pre + 'the_keys_handed_to_relabel_are_the_keys_of_d', hy, And(KS.mem(K0) == D.dom(K0), KS.nodup if KS.nodup is not None else BoolVal(False),
+                                                                                  Implies(And(D.dom(K0), D.dom(K1)), (KS.fst(K0) < KS.fst(K1)) == (D.rk(K0) < D.rk(K1)))), **kw)
+            ctx.post(pre + 'new_label_of_a_key', hy + [D.dom(K0)], m(K0) == want(K0), **kw)
             ctx.post(pre + 'every_key_is_renamed', hy + [D.dom(K0)], R.dom(m(K0)), **kw)
             ctx.post(pre + 'only_renamed_keys', hy + [R.dom(K0)], Exists([q], And(D.dom(q), m(q) == K0)), **kw)
-            ctx.post(pre + 'values_untouched_when_no_two_keys_collide', hy + [D.dom(K0), inj], R.get(m(K0)) == D.get(K0), **kw)
+            ctx.post(pre + 'values_untouched_when_no_two_keys_collide', hy + [D.dom(K0), inj(K0)], R.get(m(K0)) == D.get(K0), **kw)
+            ctx.post(pre + 'original_key_order_when_no_two_keys_collide', hy + [D.dom(K0), D.dom(K1), inj(K0), inj(K1)],
+                     (R.rk(m(K0)) < R.rk(m(K1))) == (D.rk(K0) < D.rk(K1)), **kw)
             ctx.post(pre + 'receiver_unchanged', hy, receiver_unchanged(out, self_), kind='frame', **kw)
         if not nret:
             raise OutOfSubset('no returning path')
-        ctx.post(pre + 'frame.no_mutation_site_executed', [], BoolVal(len(th.mutations) == 0), kind='frame')
-        ctx.cover(pre + 'precondition', [D.dom(K0), Mmap.dom(K0), D.dom(K1), Not(Mmap.dom(K1)), m(K0) != K1] + th.inst(E))
-    ctx.guarded('%s.relabel' % cls, relabel_)
+        ctx.post(pre + 'frame.every_mutation_targets_an_object_created_by_the_call', [], BoolVal(all(own for _, own in th.mutations)), kind='frame')
+        ctx.cover(pre + 'precondition', list(pre_) + [D.dom(K0), Mmap.dom(K0), D.dom(K1), m(K0) != K1, K0 != K1] + th.inst(E, [0, 1]))
+    for variant in RELABEL_VARIANTS:
+        ctx.guarded('%s.relabel.%s' % (cls, variant), lambda variant=variant: relabel_(variant))
+    ctx.trust('precondition:the new labels handed to dictattr.relabel (values of **relabels or of a dict argument, positional names, results of the callable) are '
+              'strings - they become keyword names of type(self)(**{...}), which raises TypeError otherwise (d.relabel(a = 5)); keys are strings (the property)')
 
 
 # =============================================================================================== Dict.__call__
@@ -814,13 +923,132 @@ def call_section(ctx, M):
               'in the docstring of contracts/C16.py; it is not a solver step')
 
 
+# =============================================================================================== relabel(keys, *args, **relabels): the renaming map
+CALL1 = Function('call_with_one_argument', Val, Val, Val)      # f(k) for a callable value f handed to relabel (uninterpreted, total)
+RELABEL_VARIANTS = ('none', 'suffix', 'prefix', 'other_string', 'callable', 'dict', 'names')
+
+
+def relabel_setup(th, variant):
+    """the positional arguments of one call shape of relabel(keys, *args, **relabels): (args, path precondition, description of the base map).
+    `base` describes the mapping built from *args before the explicit relabels are laid over it: (dom, get, rk, nxt) closures over the key list KS"""
+    from pyvc.th_maps import STARTSWITH, ENDSWITH, CONCAT
+    p, f, n0, n1 = Const('p', Val), Const('f', Val), Const('n0', Val), Const('n1', Val)
+    us = th.strv('_')
+    empty = dict(dom=lambda KS, k: BoolVal(False), get=None, rk=lambda KS, k: IntVal(0), nxt=lambda KS: IntVal(0))
+    keyed = lambda get: dict(dom=lambda KS, k: KS.mem(k), get=get, rk=lambda KS, k: KS.fst(k), nxt=lambda KS: KS.len)
+    if variant == 'none':
+        return [], [], empty, {}
+    if variant == 'suffix':
+        return [V(p, 'str')], [STARTSWITH(p, us)], keyed(lambda KS, k: CONCAT(k, p)), dict(p=p)
+    if variant == 'prefix':
+        return [V(p, 'str')], [Not(STARTSWITH(p, us)), ENDSWITH(p, us)], keyed(lambda KS, k: CONCAT(p, k)), dict(p=p)
+    if variant == 'other_string':
+        return [V(p, 'str')], [Not(STARTSWITH(p, us)), Not(ENDSWITH(p, us))], empty, dict(p=p)
+    if variant == 'callable':
+        return [V(f, 'callable')], [], keyed(lambda KS, k: CALL1(f, k)), dict(f=f)
+    if variant == 'dict':
+        a = th.sym_dict('amap', cls='dict', kty='str')
+        A = a.pd
+        return [a], [], dict(dom=lambda KS, k: A.dom(k), get=lambda KS, k: A.get(k), rk=lambda KS, k: A.rk(k), nxt=lambda KS: A.nxt), dict(amap=A)
+    if variant == 'names':
+        names = PList.literal([n0, n1])
+        return [V(n0, 'str'), V(n1, 'str')], [], dict(dom=lambda KS, k: And(KS.len == 2, KS.mem(k)), get=lambda KS, k: names.at(KS.fst(k)),
+                                                      rk=lambda KS, k: KS.fst(k), nxt=lambda KS: If(KS.len == 2, IntVal(2), IntVal(0))), dict(n0=n0, n1=n1)
+    raise OutOfSubset('relabel variant %s' % variant)
+
+
+def call1_contract(th):
+    def h(ex, st, fn, args, kwargs, star, dstar):
+        if fn.kind != 'val' or fn.f.get('ty') != 'callable' or len(args) != 1 or kwargs or star is not None or dstar is not None:
+            return NotImplemented
+        ex.use('uninterpreted:f(key) for the callable handed to relabel is an uninterpreted total function of (f, key); precondition: it returns a string '
+               '(new labels become keyword names of the constructor call) and does not raise')
+        return V(CALL1(fn.t, th.to_val(ex, args[0])), 'str')
+    return h
+
+
+def relabel_helper_section(ctx, M):
+    """the module-level relabel(keys, *args, **relabels) executed from the real AST (as_list inlined) for each shape of *args: no argument, a suffix
+    string '_x', a prefix string 'x_', any other string, a callable, a dict, two names for two keys.  Proved from the body: the result is a new plain
+    dict; an explicit relabel always wins; the other entries are exactly the keys of the list under (key + suffix | prefix + key | f(key) | the
+    positional name) - string concatenation and f stay uninterpreted -; a dict argument is laid under the explicit relabels; key order; the key list,
+    the dict argument and the keyword mapping are not modified."""
+    md = M['md']
+    fdef = M['inline'][RELABEL_FN][1]
+    ks = Const('ks', Lst)
+    K0, K1 = Consts('K0 K1', Val)
+    for variant in RELABEL_VARIANTS:
+        th = Maps(M['classes'])
+        th.contracts['__call__'] = call1_contract(th)
+        ex = Exec(md, [th], inline=M['inline'], name='relabel.' + variant)
+        keys = th.sym_list('ks', cls='list', elty='str')
+        KS = keys.pl
+        rel = th.sym_dict('relabels', cls='dict', kty='str', own=True)       # the ** mapping is built for the call
+        RL = rel.pd
+        args, pre_, base, extra = relabel_setup(th, variant)
+        st = State(); st.pc += list(pre_) + [NODUP(ks)]
+        outs = ex.run_function(st, RELABEL_FN, [keys] + args, {'**': rel})
+        E = [K0, K1] + [v for v in extra.values() if z3.is_expr(v)]
+        inst = finish(ctx, ex, th, E, [0, 1])
+        ctx.record_function(md, 'relabel', fdef, ex.stmts_executed)
+        wit = dict(K0=K0, K1=K1, K0_in_keys=KS.mem(K0), K1_in_keys=KS.mem(K1), K0_relabelled=RL.dom(K0), K1_relabelled=RL.dom(K1), len_keys=LEN(ks),
+                   K0_before_K1_in_keys=KS.fst(K0) < KS.fst(K1))
+        if 'amap' in extra:
+            wit.update(K0_in_arg=extra['amap'].dom(K0), K1_in_arg=extra['amap'].dom(K1))
+        kw = dict(witness=wit, replay=rp('relabel', variant))
+        pre = 'relabel.%s.' % variant
+        bdom = lambda k: base['dom'](KS, k)
+        order = lambda k: If(bdom(k), base['rk'](KS, k), base['nxt'](KS) + RL.rk(k))
+        nret = 0
+        for out in outs:
+            hy = ex.facts + out.st.pc + inst
+            if out.kind != 'return':
+                ctx.post(pre + 'never_raises.%s' % out.val, hy, BoolVal(False), kind='safety', **kw)
+                continue
+            nret += 1
+            r = out.val
+            if r.kind != 'pdict':
+                raise OutOfSubset('relabel returns %s' % r.kind)
+            R = r.pd
+            ctx.post(pre + 'returns_a_new_plain_dict', hy, BoolVal(r.cls == 'dict' and bool(r.f.get('own'))), **kw)
+            ctx.post(pre + 'exact_keys', hy, R.dom(K0) == Or(RL.dom(K0), bdom(K0)), **kw)
+            ctx.post(pre + 'an_explicit_relabel_wins', hy + [RL.dom(K0)], R.get(K0) == RL.get(K0), **kw)
+            if base['get'] is not None:
+                ctx.post(pre + 'other_keys_get_the_built_label', hy + [Not(RL.dom(K0)), bdom(K0)], R.get(K0) == base['get'](KS, K0), **kw)
+            ctx.post(pre + 'key_order', hy + [R.dom(K0), R.dom(K1)], (R.rk(K0) < R.rk(K1)) == (order(K0) < order(K1)), **kw)
+            env = out.st.env
+            same = (env.get('relabels') is not None and env['relabels'].kind == 'pdict' and env['relabels'].pd is RL)
+            if variant == 'dict':
+                same = same and args[0].pd is extra['amap']
+            ctx.post(pre + 'arguments_unchanged', hy, BoolVal(bool(same)), kind='frame', **kw)
+        if not nret:
+            raise OutOfSubset('relabel(%s) has no returning path' % variant)
+        ctx.post(pre + 'frame.every_mutation_targets_the_new_dict', [], BoolVal(all(own for _, own in th.mutations)), kind='frame')
+        ctx.cover(pre + 'precondition', list(pre_) + [NODUP(ks), LEN(ks) == 2, KS.mem(K0), KS.mem(K1), K0 != K1, RL.dom(K0), Not(RL.dom(K1))] + th.inst(E, [0, 1]))
+    ctx.trust('relabel(): keys are strings and the key list has no duplicates (it is list(d.keys()) at its call site); *args shapes covered: none, one '
+              'string, one callable, one dict, two names; a single list of names (unwrapped by as_list) and three or more names are bounded-checked only')
+
+
 def relabel_contract(th):
+    """call site `relabel(list(self.keys()), *args, **relabels)`: the real body of the module-level helper is executed there (no contract is assumed);
+    the mapping it returns and the key list it was given are remembered for the postconditions"""
     def h(ex, st, args, kwargs, star=None, dstar=None):
-        ex.use('assumed contract:the module-level relabel(keys, *args, **relabels) returns a plain dict M (old key -> new key); its prefix / suffix / '
-               'callable string building is checked by the bounded stand-in only')
-        M = th.sym_dict('M', cls='dict', own=True)
-        th.relabel_map = M.pd
-        return M
+        ex.use('callee contract:the module-level relabel(keys, *args, **relabels) is executed from its real AST at the call site in dictattr.relabel '
+               '(body verified in relabel.* on its own; string concatenation and the callable stay uninterpreted)')
+        if RELABEL_FN not in ex.inline:
+            raise SelectorError('relabel() not found')
+        kw = dict(kwargs)
+        if star is not None:
+            kw['*'] = star
+        if dstar is not None:
+            kw['**'] = dstar
+        if not args or args[0].kind != 'plist':
+            raise OutOfSubset('relabel() called without a key list')
+        r = ex.call_inline_expr(st, RELABEL_FN, list(args), kw)
+        if r.kind != 'pdict':
+            raise OutOfSubset('relabel() returns %s' % r.kind)
+        th.relabel_map, th.relabel_keys = r.pd, args[0].pl
+        return r
     return h
 
 
@@ -857,10 +1085,12 @@ def build(ctx):
     ctx.post('axioms.list_and_dict_element_view_agree_with_cpython', [], BoolVal(not bad), kind='axiom-validation')
     M = machinery(ctx)
     ctx.guarded('ulist', lambda: ulist_section(ctx, M))
+    ctx.guarded('ulist.__init__', lambda: init_section(ctx, M))
     for cls in ('dictattr', 'Dict'):
         dictattr_section(ctx, M, cls)
     ctx.guarded('Dict.__call__', lambda: call_section(ctx, M))
     ctx.guarded('Dict.apply', lambda: apply_section(ctx, M))
+    ctx.guarded('relabel', lambda: relabel_helper_section(ctx, M))
     inherit_replay(ctx)
 
     # ------------------------------------------------------------------ frame: operations that return a new object never alter their operands
